@@ -64,7 +64,16 @@ def _enter_server(self, gather_args: tuple = None):
             qout = self._q_in
             while True:
                 x = qin.get()
-                qout.put(x)
+                try:
+                    qout.put(x)
+                except Exception as e:
+                    if x is None:
+                        raise
+                    # This input could not be sent to the worker processes (typically it can not
+                    # be pickled). Its own request fails with this error, as if a worker had
+                    # failed on it; this thread and the other requests carry on.
+                    self._q_out.put((x[0], RemoteException(e)))
+                    continue
                 if x is None:
                     break
 
